@@ -423,6 +423,9 @@ pub static PROGRESS: AtomicU64 = AtomicU64::new(0);
 /// `secs` seconds (typical cases take micro- to milliseconds) the code under test is stuck in a
 /// call that will never return. The run ends as inconclusive (exit 2) instead of hanging for ever;
 /// it is never counted as a violation.
+/// set while the run legitimately makes no case progress (building and running the fuzz campaigns)
+pub static WATCHDOG_PAUSED: AtomicBool = AtomicBool::new(false);
+
 pub fn stall_watchdog(secs: u64) {
     static STARTED: AtomicBool = AtomicBool::new(false);
     if STARTED.swap(true, Ordering::SeqCst) {
@@ -434,7 +437,7 @@ pub fn stall_watchdog(secs: u64) {
         loop {
             std::thread::sleep(Duration::from_secs(2));
             let now = PROGRESS.load(Ordering::Relaxed);
-            if now != last {
+            if now != last || WATCHDOG_PAUSED.load(Ordering::Relaxed) {
                 last = now;
                 since = Instant::now();
             } else if since.elapsed() > Duration::from_secs(secs) {
